@@ -32,7 +32,7 @@ type C07 struct {
 }
 
 type sdkCoin struct {
-	denom, amount string
+	denom, amount     string
 	disableAutoRetire bool
 }
 
